@@ -413,6 +413,10 @@ func ruleTBTokens(r *core.Reporter) {
 func ruleTBPenalty(r *core.Reporter) {
 	p := r.P
 	rf := p.Func(rel(pkgRL), "(*tokenBucket).refill")
+	if rf == nil {
+		// refill folded into its only caller by hand: the same clauses are read off Wait
+		rf = p.Func(rel(pkgRL), "(*tokenBucket).Wait")
+	}
 	af := p.Func(rel(pkgRL), "(*tokenBucket).adjustOnFailure")
 	sf := p.Func(rel(pkgRL), "(*tokenBucket).onSuccess")
 	if rf == nil || af == nil || sf == nil {
@@ -433,6 +437,9 @@ func ruleTBPenalty(r *core.Reporter) {
 	}
 	// --- refill
 	for _, st := range fieldStore(rf, "tokens") {
+		if b, isB := st.Val.(*ssa.BinOp); isB && b.Op == token.SUB {
+			continue // taking a token (Wait), not a refill
+		}
 		_, g := ir.GuardedBy(rf, ir.Entry(rf), st, false, func(a ir.Atom) bool {
 			c := ir.BoolCallAtom(a, "(time.Time).Before")
 			return c != nil && isLoadOf(c.Call.Args[1], "penaltyUntil")
